@@ -84,6 +84,26 @@ class RatEval:
         return self.atom_of(n)
 
 
+def _factor_list_rad(poly):
+    """factor_list that tolerates rational powers of symbols (sqrt(x) ...): each symbol x that occurs with a
+    fractional exponent is written as D**Q (Q the lcm of the denominators), the polynomial in D is factored,
+    and D is substituted back."""
+    fr = [a for a in poly.atoms(sympy.Pow) if a.base.is_Symbol and a.exp.is_Rational and not a.exp.is_Integer]
+    if not fr:
+        return sympy.factor_list(poly)
+    import math
+    Q = {}
+    for a in fr:
+        Q[a.base] = Q.get(a.base, 1) * a.exp.q // math.gcd(Q.get(a.base, 1), a.exp.q)
+    D = {b: sympy.Dummy('D', positive=True) for b in Q}
+    p2 = poly.replace(lambda x: x.is_Pow and x.base in Q and x.exp.is_Rational,
+                      lambda x: D[x.base] ** (x.exp * Q[x.base]))
+    p2 = p2.subs({b: D[b] ** Q[b] for b in Q})
+    cont, fl = sympy.factor_list(sympy.expand(p2))
+    back = {D[b]: b ** sympy.Rational(1, Q[b]) for b in Q}
+    return cont, [(f.subs(back), m) for f, m in fl]
+
+
 def refuted(expr):
     """Cheap, sound refutation: the expression (a polynomial / radical form in independent positive symbols) is
     NOT identically zero if it is non-zero at some point.  Two fixed pseudo-random rational points, 40 digits.
@@ -152,6 +172,7 @@ class NFSym:
         self.memo = {}
         self.units = set()      # symbols standing for sign(x): s**2 == 1
         self.ambiguous = []     # powers whose sign decomposition was not determined
+        self.powdef = {}        # opaque power symbol -> (base factor expr, exponent shape as field element)
         self.orient = None      # optional callable: sympy polynomial factor -> -1 if it is negative on the domain
 
     def sym(self, key):
@@ -208,9 +229,31 @@ class NFSym:
         per (irreducible factor, exponent shape).  Exponents therefore add correctly across
         products: x**(g-1) / x**g = 1/x,  t**(a/D) * t**(b/D) = t**((a+b)/D), and
         (1 + 2/(g-1))**k == ((g+1)/(g-1))**k."""
-        base = self.atom(k)
+        return self._pow_expr(self.atom(k), e, k)
+
+    def _pow_expr(self, base, e, label, depth=0):
+        """sympy expression `base` (positive) raised to the field element e; see sympow."""
+        if depth > 6:
+            return self.sym('%s^(%s)' % (label, e))
+        field = e.parent()
+        # partial fractions first: 1/(g (g-1)) = 1/(g-1) - 1/g, so that exponents whose denominators share
+        # factors are decomposed over the same shapes
+        try:
+            if not e.denom.is_ground:
+                dex = e.denom.as_expr()
+                fsyms = list(dex.free_symbols)
+                if len(fsyms) == 1 and len(sympy.factor_list(dex)[1]) > 1:
+                    terms = sympy.Add.make_args(sympy.apart(e.as_expr(), fsyms[0]))
+                    if len(terms) > 1:
+                        out = sympy.Integer(1)
+                        for tm in terms:
+                            out *= self._pow_expr(base, field.from_sympy(tm), label, depth + 1)
+                        return out
+        except Exception:
+            pass
         try:
             quo, rem = e.numer.div(e.denom)
+            ring = e.numer.ring
             # primitive denominator: 1/(4b+10) and 1/(2b+5) are the same exponent shape (coefficient 1/2, 1)
             dcont = e.denom.content()
             if e.denom.LC < 0:
@@ -218,23 +261,27 @@ class NFSym:
             dprim = e.denom.quo_ground(dcont) if dcont != 1 else e.denom
             dtxt = str(dprim)
             dscale = sympy.Rational(int(dcont.numerator), int(dcont.denominator)) if hasattr(dcont, 'numerator') else sympy.Rational(int(dcont))
-            parts = []          # (rational coefficient, shape key or None for a plain rational power)
+            parts = []          # (rational coefficient, shape key or None for a plain rational power, shape as field element)
             for poly, den in ((quo, '1'), (rem, dtxt)):
                 if poly == 0:
                     continue
                 for monom, coeff in poly.terms():
                     c = sympy.Rational(int(coeff.numerator), int(coeff.denominator))
+                    mono_f = field(ring.term_new(monom, ring.domain.one))
                     if den == '1' and not any(monom):
-                        parts.append((c, None))
+                        parts.append((c, None, None))
                     elif den != '1' and e.denom.is_ground:
                         d0 = e.denom.LC
                         c = c / sympy.Rational(int(d0.numerator), int(d0.denominator))
-                        parts.append((c, None) if not any(monom) else (c, '%s/1' % (monom,)))
+                        parts.append((c, None, None) if not any(monom) else (c, '%s/1' % (monom,), mono_f))
+                    elif den == '1':
+                        parts.append((c, '%s/1' % (monom,), mono_f))
                     else:
-                        parts.append((c / dscale, '%s/%s' % (monom, den)))
+                        parts.append((c / dscale, '%s/%s' % (monom, den), mono_f / field(dprim)))
         except Exception:
-            return self.sym('%s^(%s)' % (k, e))
+            return self.sym('%s^(%s)' % (label, e))
         factors = []            # (sympy expr of an irreducible factor or a number, multiplicity incl. sign)
+        nested = sympy.Integer(1)
         num, den = sympy.fraction(sympy.together(base))
         for poly, sign in ((num, 1), (den, -1)):
             poly = sympy.expand(poly)
@@ -243,7 +290,10 @@ class NFSym:
             if poly.is_number:
                 factors.append((poly, sign))
                 continue
-            cont, fl = sympy.factor_list(poly)
+            try:
+                cont, fl = _factor_list_rad(poly)
+            except Exception:
+                cont, fl = sympy.Integer(1), [(poly, 1)]       # not a polynomial in the symbols: one opaque factor
             fl = [(sympy.expand(f), m) for f, m in fl]
             if self.orient is not None:
                 # orient every irreducible factor so that it is positive on the declared domain
@@ -252,18 +302,16 @@ class NFSym:
                         fl[i] = (sympy.expand(-f), m)
                         cont = cont * (-1) ** m
                 if cont.is_number and cont < 0:
-                    self.ambiguous.append('negative base under a parameter-dependent power: %s' % k[:60])
-                    return self.sym('%s^(%s)' % (k, e))
+                    self.ambiguous.append('negative base under a parameter-dependent power: %s' % label[:60])
+                    return self.sym('%s^(%s)' % (label, e))
             if cont.is_number and cont < 0:
                 # the base of a real power is positive: move the sign into one factor of odd multiplicity
                 # (preferably one that contains a point / time variable, e.g. t - 1 -> 1 - t)
                 odd = [i for i, (f, m) in enumerate(fl) if m % 2 == 1 and not f.is_Symbol]
                 if len(odd) != 1:
-                    # which factor carries the sign is not determined by the expression: the decomposition
-                    # would be arbitrary.  Remember that an identity involving this power may go unproven.
-                    self.ambiguous.append('%s^(%s)' % (k[:60], e))
+                    self.ambiguous.append('%s^(%s)' % (label[:60], e))
                 if not odd:
-                    return self.sym('%s^(%s)' % (k, e))
+                    return self.sym('%s^(%s)' % (label, e))
                 inputs = {v for kk, v in self.syms.items() if kk.startswith('input:')}
                 pick = next((i for i in odd if fl[i][0].free_symbols & inputs), odd[0])
                 fl[pick] = (sympy.expand(-fl[pick][0]), fl[pick][1])
@@ -271,14 +319,28 @@ class NFSym:
             if cont != 1:
                 factors.append((cont, sign))
             for f, m in fl:
+                if f.is_Pow and f.base.is_Symbol and f.exp.is_Rational:
+                    f, m = f.base, m * f.exp                     # sqrt(x)**e = x**(e/2)
+                if f.is_Symbol and f in self.powdef:
+                    # a power of a power: (f0**s0)**(m e) = f0**(s0 m e), decomposed afresh
+                    f0, s0 = self.powdef[f]
+                    shaped = e
+                    for c, shape, sf in parts:
+                        if shape is None:
+                            shaped = shaped - field(c.p) / field(c.q)          # the plain rational part stays on `base ** c`
+                    mm = sympy.Rational(sign) * m
+                    nested *= self._pow_expr(f0, s0 * (field(mm.p) / field(mm.q)) * shaped, label, depth + 1)
+                    continue
                 factors.append((f, sign * m))
-        out = sympy.Integer(1)
-        for c, shape in parts:
+        out = nested
+        for c, shape, sf in parts:
             if shape is None:
                 out *= base ** c
             else:
                 for f, m in factors:
-                    out *= self.sym('pow[%s|%s]' % (sympy.srepr(f), shape)) ** (c * m)
+                    t = self.sym('pow[%s|%s]' % (sympy.srepr(f), shape))
+                    self.powdef[t] = (f, sf)
+                    out *= t ** (c * m)
         return out
 
     def conv(self, x):
